@@ -137,7 +137,8 @@ def fit_tilt_rule(chk, repo, clause):
                             str(e.data.get('callee', '')).startswith('ext:numpy.') and e.data.get('inplace') for e in p.events):
                 # the ramp is taken out of the OPD on this path but never entered in the tilt list: it is lost
                 grows = [w for w in p.events if w.kind == 'write' and w.data.get('how') in ('method:append', 'method:extend', 'augassign')
-                         and isinstance(w.target, Poly) and any(a_[0] == 'attr' and a_[2] == 'tilt' for a_ in nf.value_atoms(w.target) | {w.target.single_atom()} if a_)]
+                         and isinstance(w.target, Poly) and w.target.single_atom() is not None
+                         and w.target.single_atom()[0] == 'attr' and w.target.single_atom()[2] == 'tilt']      # the list itself
                 chk.ob(clause, 'D-index', f.key, 'the removed tip/tilt is recorded on every path', None if grows else False,
                        (f'undecided: path [{conds_str(p)[:100]}] extends the tilt list with something that is not followed' if grows else
                         f'path [{conds_str(p)[:160]}] subtracts the fitted ramp from the OPD without appending a Tilt'), f.loc(p.node))
